@@ -14,6 +14,7 @@ CONSTANTS
   ArgLens = {1}
   Overs = {FALSE}
   InitProgs = {"stop", "revert"}
+  GasModes = {"all"}
   FailKinds = {"err"}
   MaxFailPos = 3
   BoundSets = {{}}
